@@ -1386,6 +1386,11 @@ NEDTRIE_HEAD(ndtr_t, ndnd_t);
 static ndtr_t chkpntr;
 static ndnd_t chkpnts[16U];
 static size_t ichkpnts;
+/* users that wanted a mark when there was none left, the complete dump
+ * only knows users that still have tasks so it needs telling about them */
+static uid_t *xchkpnts;
+static size_t nxchkpnts;
+static size_t zxchkpnts;
 
 static inline uid_t
 ndnd_key(const ndnd_t *r)
@@ -1441,7 +1446,26 @@ add_chkpnt(uid_t u)
 		const size_t i = ichkpnts++;
 		chkpnts[i].key = u;
 		NEDTRIE_INSERT(ndtr_t, &chkpntr, chkpnts + i);
+		return;
 	}
+	/* out of marks */
+	for (size_t i = 0U; i < nxchkpnts; i++) {
+		if (xchkpnts[i] == u) {
+			/* once is enough */
+			return;
+		}
+	}
+	if (nxchkpnts >= zxchkpnts) {
+		const size_t nuz = (zxchkpnts * 2U) ?: countof(chkpnts);
+		uid_t *nup = realloc(xchkpnts, nuz * sizeof(*xchkpnts));
+
+		if (UNLIKELY(nup == NULL)) {
+			return;
+		}
+		xchkpnts = nup;
+		zxchkpnts = nuz;
+	}
+	xchkpnts[nxchkpnts++] = u;
 	return;
 }
 
@@ -1619,8 +1643,9 @@ chkpnt(void)
 		rc = chkpnta();
 		/* the complete dump only knows users that still have tasks,
 		 * the queue files of the others want emptying too */
-		for (size_t i = 0U; i < ichkpnts; i++) {
-			const uid_t u = chkpnts[i].key;
+		for (size_t i = 0U; i < ichkpnts + nxchkpnts; i++) {
+			const uid_t u = i < ichkpnts
+				? chkpnts[i].key : xchkpnts[i - ichkpnts];
 			size_t j;
 
 			for (j = 0U; j < ztask_ht; j++) {
@@ -1661,6 +1686,7 @@ chkpnt(void)
 fin:
 	/* all checkpoints cleared hopefully */
 	ichkpnts = 0U;
+	nxchkpnts = 0U;
 	NEDTRIE_INIT(&chkpntr);
 	return rc;
 }
